@@ -1,6 +1,7 @@
 (* C15 — field ids, not declaration order, fix the wire order.  Statements only. *)
 From Coq Require Import String ZArith List Bool Permutation.
-From FcpV Require Import Schema.Types Base.SortPerm Schema.PermProofs Layout.Packed Wire.Wire Py.PySerde.
+From FcpV Require Import Base.Bits Schema.Types Base.SortPerm Schema.PermProofs Layout.Packed Wire.Wire Py.PySerde.
+From FcpV Require Import Py.BufferLib Py.BufferProofs Py.DispatchLib Py.DispatchDefs Py.DispatchProofs Py.DispatchPerm.
 Import ListNotations.
 Open Scope Z_scope.
 
@@ -45,3 +46,22 @@ Proof.
   - cbn. eapply perm_trans; [apply perm_skip, perm_swap|apply perm_swap].
   - cbn. repeat constructor; cbn; intuition discriminate.
 Qed.
+
+(* ---- serde.py itself (translated from the source on every run: gen/PyBuffer.v, gen/PyLeaf.v, gen/PyDispatch.v): the translated
+   encode() returns the same bytes - the canonical ones - and the translated decode() the same result for both declarations ---- *)
+Theorem source_encode_ignores_declaration_order :
+  forall sc sc' name t v bs fuel,
+    schema_perm sc sc' -> NoDup (map sname (structs sc)) -> NoDup (map sname (structs sc')) ->
+    resolve sc name = Some t -> uniq t -> repr t v = true -> (depth t <= S fuel)%nat -> wire t v = Some bs ->
+    PyDispatch.py_encode fuel sc name (embed t v) = POk (bytes_of_bits bs) /\
+    PyDispatch.py_encode fuel sc' name (embed t v) = POk (bytes_of_bits bs).
+Proof. exact translated_encode_perm. Qed.
+Print Assumptions source_encode_ignores_declaration_order.
+
+Theorem source_decode_ignores_declaration_order :
+  forall sc sc' name t data fuel,
+    schema_perm sc sc' -> NoDup (map sname (structs sc)) -> NoDup (map sname (structs sc')) ->
+    resolve sc name = Some t -> uniq t -> (depth t <= S fuel)%nat -> Forall byte_ok data ->
+    PyDispatch.py_decode fuel sc name data = PyDispatch.py_decode fuel sc' name data.
+Proof. exact translated_decode_perm. Qed.
+Print Assumptions source_decode_ignores_declaration_order.
